@@ -1,5 +1,5 @@
 (* C15 - the finalized circuit's connection data is complete, consistent and frozen. *)
-From Verif Require Import Values Finalize FinalizeProofs.
+From Verif Require Import Values Finalize FinalizeProofs Signature SignatureProofs.
 Open Scope string_scope.
 Open Scope list_scope.
 
@@ -54,6 +54,49 @@ Theorem C15_named_wrong_kind : forall bs n bs1 b,
   resolve_named bs n NeedS = Err EType.
 Proof. exact named_wrong_kind. Qed.
 
+(* wrongly shaped inputs make the start fail: the meaning of check_signature() *)
+Theorem C15_signature_meaning : forall es bs,
+  sig_ok es bs = true <->
+  (forall n, In n (map fst es) <-> In n (map fst bs)) /\
+  (forall n e, In (n, e) es -> exists v, lookup n bs = Some v /\ item_ok e v = true).
+Proof. exact sig_ok_spec. Qed.
+
+Theorem C15_missing_input_fails : forall es bs n,
+  In n (map fst es) -> ~ In n (map fst bs) -> sig_ok es bs = false.
+Proof. exact missing_input_fails. Qed.
+
+Theorem C15_unexpected_input_fails : forall es bs n,
+  In n (map fst bs) -> ~ In n (map fst es) -> sig_ok es bs = false.
+Proof. exact unexpected_input_fails. Qed.
+
+(* a group - of any size, the empty group included - where a single input is expected *)
+Theorem C15_group_for_single_fails : forall es bs n k,
+  In (n, ExSingle) es -> lookup n bs = Some (Some k) -> sig_ok es bs = false.
+Proof. exact group_for_single_fails. Qed.
+
+Theorem C15_single_for_group_fails : forall es bs n e,
+  In (n, e) es -> e <> ExSingle -> lookup n bs = Some None -> sig_ok es bs = false.
+Proof. exact single_for_group_fails. Qed.
+
+Theorem C15_wrong_count_fails : forall es bs n c k,
+  In (n, ExCount c) es -> lookup n bs = Some (Some k) -> k <> c -> sig_ok es bs = false.
+Proof. exact wrong_count_fails. Qed.
+
+Theorem C15_range_bounds : forall lo hi k,
+  item_ok (ExRange lo hi) (Some k) = true <->
+  (forall l, lo = Some l -> (l <= k)%nat) /\ (forall h, hi = Some h -> (k <= h)%nat).
+Proof. exact range_bounds. Qed.
+
+Theorem C15_signature_link : forall k,
+  sig_verdict k = "A"%char -> sc_started k = sig_ok (sc_exp k) (sc_shape k).
+Proof. exact sig_link. Qed.
+
+Example C15_signature_nonvacuous :
+  sig_ok [("input", ExSingle); ("override", ExSingle)] [("input", None); ("override", None)] = true /\
+  sig_ok [("input", ExSingle); ("override", ExSingle)] [("input", Some 0%nat); ("override", None)] = false /\
+  sig_ok [("_", ExCount 1)] [("_", Some 2%nat)] = false.
+Proof. vm_compute. repeat split. Qed.
+
 (* non-vacuity: two references to '_not_top' share one inverter wired to 'top' *)
 Example C15_nonvacuous :
   let bs := [ {| bd_name := "top"; bd_kind := KS; bd_inputs := [] |};
@@ -75,3 +118,11 @@ Print Assumptions C15_unknown_name_error.
 Print Assumptions C15_foreign_block_error.
 Print Assumptions C15_named_resolved.
 Print Assumptions C15_named_wrong_kind.
+Print Assumptions C15_signature_meaning.
+Print Assumptions C15_missing_input_fails.
+Print Assumptions C15_unexpected_input_fails.
+Print Assumptions C15_group_for_single_fails.
+Print Assumptions C15_single_for_group_fails.
+Print Assumptions C15_wrong_count_fails.
+Print Assumptions C15_range_bounds.
+Print Assumptions C15_signature_link.
